@@ -534,22 +534,27 @@ func (c *Checker) checkExtractCRC() {
 	const anchor = "psi:ExtractCRC"
 	var bad []string
 	for _, sl := range []int{13, 20, 100} {
-		var in0 *Interp
-		s, _ := c.summary("C06.crc", anchor, &AnalyzeOpts{SliceLen: map[string]int{"payload": 4 + sl + 10}, Setup: func(in *Interp) { in0 = in }, Pre: patSeed(sl)})
-		if s == nil {
-			return
-		}
-		n := paramName(s, 0)
-		if e := in0.nilBit(s.RetN(1)); !(isConst(e) && e.c) {
-			bad = append(bad, fmt.Sprintf("section_length=%d: error %s", sl, showVal(s.RetN(1))))
-		}
-		ret, _ := s.RetN(0).(*BV)
-		want := catBytes(cellBV(n, sl), cellBV(n, sl+1), cellBV(n, sl+2), cellBV(n, sl+3))
-		if ok, d := matchBits(ret, want); !ok {
-			bad = append(bad, fmt.Sprintf("section_length=%d: %s", sl, d))
+		// the payload ends exactly with the section, one byte later, ten bytes later
+		for _, extra := range []int{0, 1, 10} {
+			var in0 *Interp
+			s, _ := c.summary("C06.crc", anchor, &AnalyzeOpts{SliceLen: map[string]int{"payload": 4 + sl + extra}, Setup: func(in *Interp) { in0 = in }, Pre: patSeed(sl)})
+			if s == nil {
+				return
+			}
+			n := paramName(s, 0)
+			tag := fmt.Sprintf("section_length=%d, %d byte(s) after the section: ", sl, extra)
+			if e := in0.nilBit(s.RetN(1)); !(isConst(e) && e.c) {
+				bad = append(bad, tag+"error "+showVal(s.RetN(1)))
+				continue
+			}
+			ret, _ := s.RetN(0).(*BV)
+			want := catBytes(cellBV(n, sl), cellBV(n, sl+1), cellBV(n, sl+2), cellBV(n, sl+3))
+			if ok, d := matchBits(ret, want); !ok {
+				bad = append(bad, tag+d)
+			}
 		}
 	}
-	c.check("C06.crc", anchor, "pointer_field 0: returns the big-endian word at the section's last four bytes (offset section_length … +3)", len(bad) == 0, strings.Join(bad, "; "))
+	c.check("C06.crc", anchor, "pointer_field 0: returns the big-endian word at the section's last four bytes (offset section_length … +3), whether or not anything follows the section", len(bad) == 0, strings.Join(bad, "; "))
 }
 
 func (c *Checker) checkReadPMT() {
